@@ -41,7 +41,7 @@ def universe(rng, size):
 def dicts_to_struct(polys, shape):
     """list of {mono: coef} -> one record with names q0,q1,q2 and one column per occurring monomial"""
     names = [0, 1, 2]
-    monos = sorted({m for p in polys for m in p} | {()})
+    monos = sorted({m for p in polys for m in p}) or [()]     # no constant row unless some element has one
     terms = []
     for m in monos:
         e = [dict(m).get(n, 0) for n in names]
@@ -53,10 +53,14 @@ def bool_matrix(x, m):
     return numpy.asarray(x, dtype=bool).reshape(m, m)
 
 
-def run_universe(ctx, monitor):
-    rng = ctx.rng("universe")
+def run_universe(ctx, monitor, constants=True):
+    rng = ctx.rng("universe" if constants else "universe-no-constants")
     m = 60 if ctx.quick else 150
-    U = universe(rng, m)
+    U = universe(rng, m if constants else 4 * m)
+    if not constants:
+        # a universe whose elements store no constant-term row (storage row 0 is then not the lowest monomial)
+        U = [u for u in U if () not in u and u][:m]
+        m = len(U)
     sa = dicts_to_struct(U, (m, 1))
     sb = dicts_to_struct(U, (1, m))
     same = numpy.array([[U[i] == U[j] for j in range(m)] for i in range(m)])
@@ -165,6 +169,46 @@ def run_random(ctx, monitor):
     ctx.sample({"op": cases[0]["what"], "a": cases[0]["a"], "b": cases[0]["b"], "opts": cases[0]["opts"], "model": answers[0].get("value", answers[0].get("terms"))})
 
 
+def run_dtypes(ctx, monitor):
+    """narrow / unsigned / large coefficients: the verdict may not depend on differences fitting the dtype"""
+    rng = ctx.rng("dtypes")
+    n = 150 if ctx.quick else 1500
+    cases = []
+    for i in range(n):
+        dt = gen.choice(rng, ["uint8", "int8", "uint16", "int64big", "uint64"])
+        names = gen.gen_names(rng, 1, 2)
+        shape = gen.choice(rng, [(), (2,), (3,)])
+        size = int(numpy.prod(shape, dtype=int))
+        rows = sorted({tuple(int(x) for x in rng.integers(0, 3, size=len(names))) for _ in range(3)})
+
+        def val():
+            if dt == "uint8":
+                return int(gen.choice(rng, [0, 1, 3, 5, 200, 255]))
+            if dt == "int8":
+                return int(gen.choice(rng, [-128, -100, -1, 0, 1, 100, 127]))
+            if dt == "uint16":
+                return int(gen.choice(rng, [0, 1, 2, 40000, 65535]))
+            if dt == "uint64":
+                return int(gen.choice(rng, [0, 1, 2 ** 63, 2 ** 64 - 1, 5]))
+            return int(gen.choice(rng, [-2 ** 62, 2 ** 62, -1, 0, 1, 2 ** 62 + 3, -2 ** 62 - 5]))
+        def mk():
+            return {"names": names, "shape": list(shape), "dtype": "int64" if dt == "int64big" else dt, "kind": "int", "as": "poly",
+                    "terms": [[list(e), [val() for _ in range(size)]] for e in rows]}
+        what = gen.choice(rng, ["gt", "lt", "ge", "le", "max", "min"])
+        cases.append({"id": 10 ** 6 + i, "kind": "pair", "what": what, "opts": {"sort_graded": bool(rng.integers(2)), "sort_reverse": bool(rng.integers(2))}, "a": mk(), "b": mk(), "dtype": dt})
+    drv = []
+    for c in cases:
+        base = {"id": c["id"], "opts": dict(c["opts"], retain_coefficients=False, retain_names=True),
+                "a": {k: c["a"][k] for k in ("names", "shape", "terms")}, "b": {k: c["b"][k] for k in ("names", "shape", "terms")}}
+        drv.append(dict(base, op="compare", rel=c["what"]) if c["what"] in OPS else dict(base, op="maxmin", which=c["what"]))
+    for c, ans in zip(cases, run_driver(drv)):
+        n0 = len(ctx.failures)
+        replay_pair(ctx, c, ans, monitor)
+        for f in ctx.failures[n0:]:
+            f["tags"] = sorted(set(f["tags"]) | {f"dtype:{c['dtype']}"})
+        ctx.count(f"dtype={c['dtype']}")
+
+
 def replay_pair(ctx, c, ans, monitor=None):
     a = gen.materialize(c["a"], c["a"].get("as", "poly"))
     b = gen.materialize(c["b"], c["b"].get("as", "poly"))
@@ -203,7 +247,9 @@ def run(ctx):
     ctx.rule = RULE
     monitor = Monitor()
     run_universe(ctx, monitor)
+    run_universe(ctx, monitor, constants=False)
     run_random(ctx, monitor)
+    run_dtypes(ctx, monitor)
     ctx.exhaustive = False
     ctx.extra["argument_monitor"] = {"calls": monitor.calls, "mutations": monitor.events[:5]}
     for ev in monitor.events[:3]:
